@@ -25,7 +25,8 @@ PURE_FUNCS = {"len", "list", "sorted", "range", "abs", "min", "max", "sum", "str
               "enumerate", "zip", "any", "all", "isinstance", "hasattr", "getattr", "bool", "repr", "reversed", "divmod", "round",
               "combinations", "permutations", "product", "combinations_with_replacement", "chain", "ceil", "floor", "log", "sqrt",
               "itertools.combinations", "itertools.permutations", "itertools.product", "math.ceil", "math.floor", "math.log", "math.sqrt",
-              "copy", "deepcopy", "copy.copy", "copy.deepcopy", "type", "id", "map", "filter", "iter", "ord", "chr", "format"}
+              "copy", "deepcopy", "copy.copy", "copy.deepcopy", "type", "id", "map", "filter", "iter", "ord", "chr", "format", "isgenerator",
+              "inspect.isgenerator"}
 PURE_METHODS = {"order", "vertices", "edges", "neighbors", "has_edge", "number_of_vertices", "number_of_edges", "number_of_variables",
                 "number_of_clauses", "parts", "domain", "range", "indices", "format", "split", "strip", "lstrip", "rstrip", "join", "keys",
                 "items", "values", "get", "count", "index", "startswith", "endswith", "bit_length", "to_dict", "predecessors", "successors",
@@ -127,6 +128,19 @@ def module_pure_helpers(tree):
         body = [b for b in d.body if not (isinstance(b, ast.Expr) and isinstance(b.value, ast.Constant) and isinstance(b.value.value, str))]
         if not body or not isinstance(body[-1], ast.Return) or body[-1].value is None:
             continue
+        params0 = [a.arg for a in d.args.args]
+        # if c: return A  (or  if c: p = A) ; return B      ==     return A if c else B
+        if len(body) == 2 and isinstance(body[0], ast.If) and not body[0].orelse and len(body[0].body) == 1 and is_pure(body[0].test):
+            inner = body[0].body[0]
+            alt = None
+            if isinstance(inner, ast.Return) and inner.value is not None:
+                alt = inner.value
+            elif isinstance(inner, ast.Assign) and len(inner.targets) == 1 and isinstance(inner.targets[0], ast.Name) and \
+                    isinstance(body[1].value, ast.Name) and body[1].value.id == inner.targets[0].id:
+                alt = inner.value
+            if alt is not None and is_pure(alt) and is_pure(body[1].value):
+                out[d.name] = (params0, ast.IfExp(test=body[0].test, body=alt, orelse=body[1].value))
+                continue
         if not all(isinstance(b, ast.Assign) and len(b.targets) == 1 and isinstance(b.targets[0], ast.Name) and is_pure(b.value) for b in body[:-1]):
             continue
         if not is_pure(body[-1].value) or any(isinstance(x, (ast.Yield, ast.YieldFrom)) for x in ast.walk(d)):
@@ -155,9 +169,16 @@ def ssa_toplevel(fnode):
     if f.args.kwarg:
         params.add(f.args.kwarg.arg)
     top = {}
+    bad_for = set()
     for st in f.body:
         if isinstance(st, ast.Assign) and len(st.targets) == 1 and isinstance(st.targets[0], ast.Name):
             top[st.targets[0].id] = top.get(st.targets[0].id, 0) + 1
+        if isinstance(st, ast.For) and isinstance(st.target, ast.Name) and not st.orelse:
+            top[st.target.id] = top.get(st.target.id, 0) + 1
+            # a loop over nothing leaves the previous binding in place: only a variable that is not read after the loop qualifies
+            later = f.body[f.body.index(st) + 1:]
+            if any(isinstance(n, ast.Name) and n.id == st.target.id and isinstance(n.ctx, ast.Load) for x in later for n in ast.walk(x)):
+                bad_for.add(st.target.id)
     total = {}
     bad = set()
     for n in ast.walk(f):
@@ -169,7 +190,7 @@ def ssa_toplevel(fnode):
             for x in ast.walk(n):
                 if isinstance(x, ast.Name):
                     bad.add(x.id)          # read or written by a nested definition: late binding, keep one name
-    cands = {n for n, c in top.items() if total.get(n, 0) == c and n not in bad and (c >= 2 or (n in params and c >= 1))}
+    cands = {n for n, c in top.items() if total.get(n, 0) == c and n not in bad and n not in bad_for and (c >= 2 or (n in params and c >= 1))}
     if not cands:
         return fnode
     version = {}
@@ -185,6 +206,12 @@ def ssa_toplevel(fnode):
             nm = st.targets[0].id
             version[nm] = version.get(nm, 0) + 1
             st.targets[0] = ast.copy_location(ast.Name(id="%s__%d" % (nm, version[nm]), ctx=ast.Store()), st.targets[0])
+        elif isinstance(st, ast.For) and isinstance(st.target, ast.Name) and not st.orelse and st.target.id in cands:
+            st.iter = R().visit(st.iter)
+            nm = st.target.id
+            version[nm] = version.get(nm, 0) + 1
+            st.target = ast.copy_location(ast.Name(id="%s__%d" % (nm, version[nm]), ctx=ast.Store()), st.target)
+            st.body = [R().visit(b) for b in st.body]
         else:
             f.body[i] = R().visit(st)
     ast.fix_missing_locations(f)
@@ -529,6 +556,13 @@ class Normaliser:
         """canonical text of a test (or of its negation): negations pushed in, `a > b` written `b < a`"""
         if isinstance(test, ast.UnaryOp) and isinstance(test.op, ast.Not):
             return self.cond(test.operand, not neg)
+        if isinstance(test, ast.BoolOp) and isinstance(test.op, ast.And) and len(test.values) == 2:
+            a, b = test.values
+            if isinstance(a, ast.Call) and _src(a.func) == "hasattr" and len(a.args) == 2 and isinstance(a.args[1], ast.Constant) and \
+                    isinstance(b, ast.Compare) and len(b.ops) == 1 and isinstance(b.ops[0], ast.IsNot) and _src(b.comparators[0]) == "None" and \
+                    _src(b.left) == "%s.%s" % (_src(a.args[0]), a.args[1].value):
+                g = ast.parse("getattr(%s, %r, None) is not None" % (_src(a.args[0]), a.args[1].value), mode="eval").body
+                return self.cond(g, neg)
         if isinstance(test, ast.BoolOp):
             is_and = isinstance(test.op, ast.And) != neg
 
@@ -654,6 +688,20 @@ class Normaliser:
                     new = ast.Assign(targets=[s.targets[0]], value=comp)
                     ast.copy_location(new, s)
                     stmts = stmts[:i] + [new] + rest[:k] + rest[k + 1:]
+                    continue
+            if isinstance(s, ast.Assign) and len(s.targets) == 1 and isinstance(s.targets[0], ast.Name) and rest and isinstance(rest[0], ast.If) \
+                    and not rest[0].orelse and len(self._strip_doc(rest[0].body)) == 1 and self.pure(s.value) and self.pure(rest[0].test):
+                inner = self._strip_doc(rest[0].body)[0]
+                nm = s.targets[0].id
+                if isinstance(inner, ast.Assign) and len(inner.targets) == 1 and isinstance(inner.targets[0], ast.Name) and \
+                        inner.targets[0].id == nm and self.pure(inner.value) and \
+                        not any(isinstance(n, ast.Name) and n.id == nm for n in ast.walk(rest[0].test)) and \
+                        not any(isinstance(n, ast.Name) and n.id == nm for n in ast.walk(inner.value)):
+                    merged = ast.Assign(targets=s.targets, value=ast.IfExp(test=rest[0].test, body=inner.value, orelse=s.value))
+                    ast.copy_location(merged, s)
+                    ast.fix_missing_locations(merged)
+                    self.assign_count[nm] = max(1, self.assign_count.get(nm, 0) - 1)
+                    stmts = stmts[:i] + [merged] + rest[1:]
                     continue
             # c = K ; for x in X: c += 1 ; ..      ==      for c, x in enumerate(X, start=K + 1): ..     (c not used after the loop)
             if isinstance(s, ast.Assign) and len(s.targets) == 1 and isinstance(s.targets[0], ast.Name) and self.pure(s.value) and \
